@@ -62,14 +62,14 @@ def install(I: Interp):
             try:
                 import sympy as _sp
                 if isinstance(v, _sp.Basic):
-                    return {"log": _sp.log, "exp": _sp.exp, "sqrt": _sp.sqrt, "abs": _sp.Abs, "log10": lambda x: _sp.log(x, 10)}[name](v)
+                    return {"log": _sp.log, "exp": _sp.exp, "sqrt": _sp.sqrt, "abs": _sp.Abs, "log10": lambda x: _sp.log(x, 10), "arcsin": _sp.asin, "asin": _sp.asin}[name](v)
             except ImportError:
                 pass
             if isinstance(v, Arr):
                 return v.with_num(Num.atom(f"{name}({v.num.canon()})"))
             return Num.atom(f"{name}({I.describe(v)})")
         return f
-    for fn in ("log", "exp", "sqrt", "abs", "log10"):
+    for fn in ("log", "exp", "sqrt", "abs", "log10", "arcsin", "asin"):
         E[f"numpy.{fn}"] = np_unary(fn)
 
     # numpy.square(x) / numpy.power(x, 2) are x * x: expressed through the interpreter's own arithmetic so that every domain agrees
